@@ -34,9 +34,9 @@ theorem regularBody_tie (c : Cfg) (rec : Call → St → St) (b : Nat) (a : St)
     (hq : (c.blk b).regular = .quietNone)
     (hv : ∀ v h, (c.blk b).initdef = some (v, h) → v.isUndef = false) :
     regularBody c rec b a =
-      applyActs rec b (initAsyncRegular (!(a.out b).isUndef) (initdefVal (c.blk b))) false a := by
+      applyActs rec b (initAsyncRegular (a.out b) (initdefVal (c.blk b))) false a := by
   rw [regularBody_quietNone c rec b a hq]
-  unfold initAsyncRegular initdefVal
+  unfold initAsyncRegular isInitialized initdefVal
   cases hd : (c.blk b).initdef with
   | none => cases hu : (a.out b).isUndef <;> simp [applyActs, Val.isUndef]
   | some p =>
